@@ -196,6 +196,12 @@ def module_tol(chk, rng, tier, V, width, T, N, dtype, lm=False, style="gauss", k
         lm_spec = chk.gen_lm(rng, N)
         if lm_spec["beta"] == "0":
             lm_spec["beta"] = "1/2"
+        if N * width * V > 20000 and lm_spec["kind"] not in ("hash", "hist"):
+            # (the three-tensor / shallow-fusion LMs score row by row in python: minutes for 1e5 scores)
+            lm_spec = {k: v for k, v in lm_spec.items() if k not in ("second", "inner")}
+            lm_spec["kind"] = rng.choice(["hash", "hist"])
+            if lm_spec["kind"] == "hist":
+                lm_spec.pop("init", None)
     case = {"kind": "module", "stream": "tol", "V": V, "width": width, "dtype": dtype, "logits": logits, "N": N,
             "lens": lens, "lm": lm_spec, "gen": "size"}
     judge = {}
@@ -208,7 +214,12 @@ def module_tol(chk, rng, tier, V, width, T, N, dtype, lm=False, style="gauss", k
         judge["elements"] = el
     if judge:
         case["judge"] = judge
-    return chk.vary_module(rng, case) if vary else case
+    if not vary:
+        return case
+    case = chk.vary_module(rng, case)
+    if N * width > 4000 or N * T > 2000:
+        case.pop("life", None)      # (every call of an object's life is a full search of the large batch)
+    return case
 
 
 def module_exact(chk, rng, tier, V, width, T, N, dtype="f64", keep_elems=3):
@@ -293,12 +304,14 @@ def roster(chk, rng, tier):
     24..40 frames / a large batch with everything else small.
     thorough / search: every class for every entry point, several times."""
     quick = tier == "quick"
-    reps = 1 if quick else 3 if tier == "thorough" else 6
+    reps = 1 if quick else 2 if tier == "thorough" else 4
     wmax = 130 if quick else 200
 
     def wide(lo, hi, kind, **kw):
         # (fused: V <= 33 - the per-prefix tables of exact LM scores are K' x V decimals per frame, three times)
-        w, V = rng.choice([x for x in pairs(lo, hi, kw.pop("wmax", wmax)) if kind != "fused" or x[1] <= 33])
+        # (and K'*V > 1e3 LM scores per element)
+        w, V = rng.choice([x for x in pairs(lo, hi, kw.pop("wmax", wmax))
+                           if kind != "fused" or (x[1] <= 33 and (x[0] * x[1] > 1000 or hi <= 65536))])
         T = max(3, fill_frames(V, w) + rng.choice([2, 2, 3]))
         if kind == "tol":
             return module_tol(chk, rng, tier, V, w, T, rng.choice([1, 1, 2]), rng.choice(["f64", "f64", "f32"]),
@@ -357,17 +370,20 @@ def roster(chk, rng, tier):
         # large input / output tensors with everything else narrow: T*N*(V+1) (logits) beyond 1e5 and T*N*K' (token
         # buffer) beyond 1e4 / 1e5; one or two (quick) / three elements go through Lean, the rest is judged by the result
         # (quick: without the array model - the class is about the tensors around the step function)
-        T, N, V, w = rng.choice([(40, 64, 64, 4), (100, 33, 33, 4), (100, 64, 17, 2), (200, 64, 8, 8), (64, 33, 64, 8)])
-        return module_tol(chk, rng, tier, V, w, T, N, "f64" if T > 64 else rng.choice(["f32", "f64"]),
+        # (the quick tier's two are beyond 1e5 in BOTH)
+        T, N, V, w = rng.choice([(100, 64, 17, 16), (100, 128, 8, 8)] + (
+            [] if quick else [(200, 64, 8, 8), (100, 33, 33, 32), (40, 64, 64, 4), (100, 33, 33, 4), (64, 33, 64, 8)]))
+        return module_tol(chk, rng, tier, V, w, T, N, "f64" if T > 64 else rng.choice(["f32", "f64", "f64"]),
                           style="peaky", keep_elems=(1 if T > 64 else 2) if quick else 3, model=not quick)
 
-    def batch_wide(N, w, V):
+    def batch_wide(N, w, V, keep=2):
         # large batches x a beam of moderate width: N*K' beyond 1e3 / 1e4, N*K'*(V+1) (candidates, extension scores,
         # LM scores) beyond 1e4 / 1e5; ragged lengths
-        return module_tol(chk, rng, tier, V, w, max(3, fill_frames(V, w) + 1), N, "f64", keep_elems=2, style="mixed",
-                          lm=V <= 17 and rng.random() < 0.5)
+        return module_tol(chk, rng, tier, V, w, max(3, fill_frames(V, w) + 1), N, "f64", keep_elems=keep, style="mixed",
+                          lm=V <= 64 and rng.random() < 0.5)
 
-    BW = [(33, 32, 17), (64, 32, 17), (33, 32, 128), (64, 32, 64), (128, 100, 3)]
+    # (N, K', V); the first: N*K' = 12800, N*K'*(V+1) = 115200, K'*K'*V = 80000 at once
+    BW = [(128, 100, 8), (33, 32, 17), (64, 32, 17), (33, 32, 128), (64, 32, 64), (128, 100, 3)]
 
     def batch_small(kind):
         N = rng.choice(BATCHES if not quick else BATCHES[1:3])
@@ -391,7 +407,7 @@ def roster(chk, rng, tier):
             yield vocab(rng.choice(kinds4), narrow=False)
             yield long_run("exact")
             yield volume()
-            yield batch_wide(*rng.choice(BW))
+            yield batch_wide(*BW[0], keep=1)    # with / without a fused LM: every other run
             yield rng.choice([huge, lambda: long_run("tol64"), lambda: long_run("tol"), lambda: long_run("advance"),
                               lambda: long_run("fused"), lambda: batch_small(rng.choice(["tol", "exact", "fused"]))])()
             continue
